@@ -81,7 +81,10 @@ def gameloop_with_neighbours(rng):
     before = rng.choice((b'-- harness\n', b'// loop below\n', b'--[[ block ]]\n', b'--[[ two\nlines ]]\n', b'-- a\n-- b\n', b'k_%d=1 ' % rng.randrange(9), b''))
     fn = rng.choice((b'function ' + name + b'() end', b'function ' + name + b'()\n cls()\n if (btn(1)) x+=1\nend',
                      b'function ' + name + b'() local q=function() end end'))
-    after = rng.choice((b' m.ready=true\n', b' vec_%d={}\n' % rng.randrange(9), b' print("after") -- note\n', b' local z9=2\n', b'\n'))
+    after = rng.choice((b' m.ready=true\n', b' vec_%d={}\n' % rng.randrange(9), b' print("after") -- note\n', b' local z9=2\n', b'\n',
+                        # a statement separator after the definition is a token of the package (what follows it on the next line would
+                        # otherwise continue the statement before the function)
+                        b';\n', b' ;\n(fa or fb)()\n', b';y9=2\n', b'; -- done\n'))
     out = []
     if before:
         out.append((before, False))
@@ -248,6 +251,11 @@ def build_graph(rng, root):
             nm = rng.choice(GAME_LOOP)
             slots.insert(rng.randint(0, len(slots)), (b'function ' + nm + b'.helper() return 2 end\n', True))
             feats.add('dotted_gameloop_name')
+        if rng.random() < 0.15:
+            # helpers whose names merely begin with (or contain) a game-loop name are ordinary functions of the package
+            nm = rng.choice((b'_draw_hud', b'_update_all', b'_init2', b'_update60fps', b'_updater', b'_drawn', b'my_init', b'x_update', b'_update6', b'_UPDATE'))
+            slots.insert(rng.randint(0, len(slots)), (b'function ' + nm + b'() return 3 end\n', True))
+            feats.add('function_name_beginning_with_a_gameloop_name')
         if rng.random() < 0.2:
             # a game-loop name as the LAST component of a dotted / method name is an ordinary function of the package
             nm = rng.choice(GAME_LOOP)
@@ -695,7 +703,7 @@ def gates(m, tier):
               'require_form:stmt', 'require_form:assign', 'require_form:local', 'require_form:field', 'require_form:callarg',
               'require_form:chain', 'require_form:nestedfn', 'require_form:in_if', 'require_form:in_else', 'require_form:in_shortif',
               'require_form:in_loop', 'require_form:in_cond', 'error:missing', 'error:noargs', 'error:threeargs', 'error:nonstring',
-              'error:badoption', 'error:offpath_next_to_main', 'error:offpath_next_to_package', 'error:offpath_env', 'main_ends_with_return', 'blank_or_comment_between_require_and_parenthesis', 'required_name_with_doubled_separator', 'gameloop_with_comment_before_or_code_after', 'gameloop_name_as_last_component', 'dotted_gameloop_name', 'package_name_non_ascii', 'directory_named_like_package', 'two_files_match_first_entry_wins', 'found_via_pattern_with_placeholder_in_directory',
+              'error:badoption', 'error:offpath_next_to_main', 'error:offpath_next_to_package', 'error:offpath_env', 'main_ends_with_return', 'blank_or_comment_between_require_and_parenthesis', 'required_name_with_doubled_separator', 'function_name_beginning_with_a_gameloop_name', 'gameloop_with_comment_before_or_code_after', 'gameloop_name_as_last_component', 'dotted_gameloop_name', 'package_name_non_ascii', 'directory_named_like_package', 'two_files_match_first_entry_wins', 'found_via_pattern_with_placeholder_in_directory',
               'package_without_remaining_code:empty_file', 'package_without_remaining_code:comments_only', 'package_without_remaining_code:game_loop_only', 'one_file_two_names_opposite_options', 'main_starts_with_comment'):
         if f.get(k, 0) < 2:
             missed.append('%s seen %d times' % (k, f.get(k, 0)))
